@@ -44,6 +44,10 @@ var c20bNoise = []struct {
 	mode os.FileMode
 }{{"lib/helper.sh", 0o755}, {".hidden/h.sh", 0o755}, {"notes.md", 0o755}, {"cfg.yaml", 0o755}, {"plain.sh", 0o644}, {"sub/lib/deep.sh", 0o755}}
 
+// c20bViaSymlink: the hooks directory is handed to the manager through a symbolic link in its
+// path (current -> volumes/rev-1, /var/run style paths): names stay relative to the directory given
+var c20bViaSymlink bool
+
 func c20bRun(layout []string, bad int, badKind string) (sig, what, outcome string) {
 	base, err := os.MkdirTemp(c20bBase(), "zzverif-c20b-")
 	if err != nil {
@@ -51,6 +55,15 @@ func c20bRun(layout []string, bad int, badKind string) (sig, what, outcome strin
 	}
 	defer os.RemoveAll(base)
 	dir := filepath.Join(base, "hooks")
+	given := dir // the path the manager is given
+	if c20bViaSymlink {
+		dir = filepath.Join(base, "volumes", "rev-1", "hooks")
+		_ = os.MkdirAll(filepath.Join(base, "volumes", "rev-1"), 0o755)
+		if err := os.Symlink(filepath.Join("volumes", "rev-1"), filepath.Join(base, "current")); err != nil {
+			panic(err)
+		}
+		given = filepath.Join(base, "current", "hooks")
+	}
 	logf := filepath.Join(base, "config-calls.log")
 	write := func(rel string, mode os.FileMode, body string) {
 		p := filepath.Join(dir, rel)
@@ -83,13 +96,13 @@ func c20bRun(layout []string, bad int, badKind string) (sig, what, outcome strin
 	for _, n := range c20bNoise {
 		write(n.rel, n.mode, "#!/bin/sh\necho \"$0\" >> "+logf+"\necho '{\"configVersion\":\"v1\",\"onStartup\":1}'\n")
 	}
-	hm := NewHookManager(&ManagerConfig{WorkingDir: dir, TempDir: base, Logger: log.NewNop()})
+	hm := NewHookManager(&ManagerConfig{WorkingDir: given, TempDir: base, Logger: log.NewNop()})
 	initErr := hm.Init()
 	callsRaw, _ := os.ReadFile(logf)
 	calls := map[string]int{}
 	for _, l := range strings.Split(strings.TrimSpace(string(callsRaw)), "\n") {
 		if l != "" {
-			r, _ := filepath.Rel(dir, l)
+			r, _ := filepath.Rel(given, l)
 			calls[r]++
 		}
 	}
@@ -120,7 +133,7 @@ func c20bRun(layout []string, bad int, badKind string) (sig, what, outcome strin
 		if calls[rel] != 1 {
 			return "C20b config-call-count", fmt.Sprintf("%s was asked for --config %d times, want once", rel, calls[rel]), ""
 		}
-		if h := hm.GetHook(rel); h == nil || h.Path != filepath.Join(dir, rel) {
+		if h := hm.GetHook(rel); h == nil || h.Path != filepath.Join(given, rel) {
 			return "C20b hook-path", fmt.Sprintf("hook %s not registered under its relative path", rel), ""
 		}
 	}
@@ -168,6 +181,17 @@ func TestVerifC20b(t *testing.T) {
 				continue
 			}
 			sig, what, outcome := c20bRun(layout, c.bad, c.kind)
+			if sig == "" && (c.bad < 0 || c.kind == "exit1" || c.kind == "invalid") {
+				// the same through a symbolic link in the hooks directory's path
+				c20bViaSymlink = true
+				sig2, what2, outcome2 := c20bRun(layout, c.bad, c.kind)
+				c20bViaSymlink = false
+				if sig2 != "" {
+					sig, what = sig2+" hooks-dir=via-symlink", what2
+				} else if outcome2 != outcome {
+					sig, what = "C20b hooks-dir-via-symlink-differs", fmt.Sprintf("layout %v: %s directly, %s through a symbolic link", layout, outcome, outcome2)
+				}
+			}
 			r.Eval(1)
 			r.Transition(int64(len(layout)))
 			if sig != "" {
